@@ -17,6 +17,16 @@ Grammar product on the real ``HistParametricModel`` / ``HistFit``:
           OPERATION of the history alphabet (first op = the fit is born from a file; later = written with changed parameters
           / replaced data), HistParametricModel.to_file + from_file in front of the model histories; every entry point x density
           flag x bin_evaluation method (a numpy.vectorize wrapper has no source text and cannot be written) x initial data.
+  default the model function NOT given (kafe2's default density, the normal distribution with mu = sigma = 1) or given by its library
+          name "normal_distribution", through HistFit(data, ...) and through kafe2.Fit(data, ...), x every bin_evaluation method
+          (the antiderivative callables of the default density included) x density flag x initial data x histories; the keywords
+          omitted as well (Simpson, density); HistParametricModel(n_bins, bin_range) without density and parameter values.
+  fail    parameter values OUTSIDE the domain of the density as points of the history alphabet: densities that raise there (a
+          normal density that rejects sigma <= 0 with ValueError, an exponential with mean tau that divides by tau: tau = 0) x all
+          methods x binnings x flags x ALL histories of length <= L over the model ops + {parameters = outside point} in which
+          such a point occurs, fresh models born outside the domain, and the same on fit level (set_all_parameter_values /
+          set_parameter_values to the outside point).  A read in that state must FAIL - also the read that directly follows a
+          failed read, after a rebin, ... - and the first read after valid values were set must give their integrals.
 
 Oracle: exact bin integrals (rational arithmetic / 40 digit mpmath, kmc/c13_densities.py) for everything that the statement
 declares exact (antiderivative callable, vectorised antiderivative: 1e-12; scipy quad: 1e-8; Simpson / trapezoid / midpoint on
@@ -45,7 +55,9 @@ RULE = (
     "fresh models; (fit) HistFit x op sequence over {set parameters, replace data (other binning, other number of entries), "
     "read model, read density}; (fitx) the same with data that has underflow / overflow entries, as initial and as replacement "
     "data; (entry) the same histories on a fit made by kafe2.Fit / from a HistModelFunction object, and histories in which the fit "
-    "(model) is written with to_file and replaced by what from_file returns.  states = distinct (object kind, density, method, flag, edges, parameter point, number of "
+    "(model) is written with to_file and replaced by what from_file returns; (default) the histories on fits / models made without a model "
+    "function (kafe2's default density) or with its library name, by HistFit and kafe2.Fit; (fail) histories in which the parameters are "
+    "set to values for which the density raises: every read in that state is expected to fail, every read after valid values to be right.  states = distinct (object kind, density, method, flag, edges, parameter point, number of "
     "entries) configurations read; non-trivial = history with >= 1 change of parameters / edges / data before a read whose "
     "expected value differs from the previous read's, or (fitx) a density-scaled model read on data with out-of-range entries"
 )
@@ -55,6 +67,8 @@ ASSUMPTIONS = [
     "outside its exactness class a quadrature rule named by bin_evaluation must be that textbook rule (one panel per bin: midpoint = rectangle w f(m), trapezoid w (f(a) + f(b)) / 2, Simpson w (f(a) + 4 f(m) + f(b)) / 6; 1e-12 of bin width x max |density|) at the current parameters and edges, be inexact one degree above its class and converge at its textbook order; method strings are case-insensitive (kafe2 lower-cases them)",
     "convergence order is measured on the sum over bins of |bin content - exact integral| for 32/64/128 uniform bins",
     "parameters are assigned as new list objects (in-place mutation of a list kafe2 holds is an unnotified external change)",
+    "kafe2's default density (no model function given) is the normal distribution with mean mu and standard deviation sigma, default values mu = sigma = 1 (function_library.normal_distribution, HistFit / HistParametricModel signatures); 'normal_distribution' is its library name",
+    "when the density (or the antiderivative) raises for the current parameter values, 'the integrals for the current parameter values' do not exist: a read of model.data / fit.model / eval_model_function_density must fail (any exception), however often it is repeated and whatever was read before; nothing is demanded of the exception type.  eval_model_function_density with explicit valid model_parameters must still work",
     "a fit / model read back from a file written by to_file is the same fit / model: same edges, entries, parameter values, density flag and bin evaluation method (kafe2 writes floats with repr, the model function and an antiderivative callable as source text; the test functions refer to np / scipy only, which the reader imports); a numpy.vectorize wrapper has no source text, the 'vectorized' method is therefore not sent through files",
 ]
 
@@ -215,13 +229,16 @@ class ModelWorld(object):
 
         self.binning, self.density, self.method, self.flag, self.v = binning, density, method, flag, v
         s, t = VALUATIONS[v % 3]
-        self.points = D.points(density, s, t)
+        self.points = _points(density, s, t)
         self.edges = edges_of(binning, v)
         self.params = self.points[p_init]
         e, form = self.edges, BINNINGS[binning][1]
         d = D.DENSITIES[density]
-        kw = dict(bin_evaluation=bin_eval(density, method, spelling), density=flag)
-        if form == "range":
+        kw = dict(bin_evaluation=bin_eval(density, method, "lower" if spelling == "default" else spelling), density=flag)
+        if spelling == "default":  # entry point: density and parameter values omitted (kafe2's defaults)
+            self.params = tuple(float(x) for x in d.base_points[0])
+            self.m = HistParametricModel(len(e) - 1, (e[0], e[-1]), bin_edges=list(e), **kw)
+        elif form == "range":
             self.m = HistParametricModel(len(e) - 1, (e[0], e[-1]), d.f, list(self.params), **kw)
         elif form == "inner":
             self.m = HistParametricModel(len(e) - 1, (e[0], e[-1]), d.f, list(self.params), bin_edges=list(e[1:-1]), **kw)
@@ -241,12 +258,55 @@ class ModelWorld(object):
             self.edges = rebin_target(self.binning, self.v, op[1])
             self.m.rebin(list(self.edges))
         elif op[0] == "read":
+            if not D.evaluable(self.density, self.params):
+                return must_raise("data", lambda: [float(x) for x in self.m.data], self.params)
             act = [float(x) for x in self.m.data]
             exp, tol, kind = expected_bins(self.density, self.method, self.params, self.edges)
             return ("data", act, exp, tol, kind)
         else:
             raise ValueError(op)
         return None
+
+
+def _points(density, s, t):
+    """parameter points by key: 0, 1, 2 (inside the domain of the density) and "b0", "b1" (outside: the density raises)"""
+    pts = dict(enumerate(D.points(density, s, t)))
+    for k, p in enumerate(D.bad_points(density, s, t)):
+        pts["b%d" % k] = p
+    return pts
+
+
+def must_raise(observable, read, params):
+    """A read at parameter values for which the density cannot be evaluated: the only outcome that is consistent with 'the
+    integrals for the CURRENT parameter values' is the failure of the read - whatever was read before."""
+    try:
+        act = read()
+    except Exception as e:  # noqa: BLE001
+        return (observable, type(e).__name__, None, None, "raise")
+    return (observable, act, "an exception: the density cannot be evaluated for the current parameter values %r" % (tuple(params),), None, "must-raise")
+
+
+def bad_ops(density):
+    return [("set", "b%d" % k) for k in range(len(D.BAD_POINTS[density]))]
+
+
+def fail_histories(density, tier):
+    """model histories of the failed-read family: all sequences of length <= L over MODEL_OPS + {parameters = a point outside the
+    domain} in which such a point is set"""
+    bad = bad_ops(density)
+    for ops in _seqs(MODEL_OPS + bad, depth(tier, "model")):
+        if any(o in bad for o in ops):
+            yield ops
+
+
+def fitfail_histories(density, tier):
+    """(initial data, op sequence) of the failed-read family on fit level: sequences of length <= L over FIT_OPS + {all parameters
+    = outside point, first parameter = that of the outside point} in which one of the two occurs"""
+    bad = [("setall", "b0"), ("setone", "b0")]
+    for init in FIT_INIT:
+        for ops in _seqs(FIT_OPS + bad, depth(tier, "fit")):
+            if any(o in bad for o in ops):
+                yield init, ops
 
 
 MODEL_OPS = [("set", 0), ("set", 1), ("set", 2), ("read",), ("rebin", "RA"), ("rebin", "RB")]
@@ -266,7 +326,7 @@ def _through_file(obj, reader):
 
 def file_densities(tier):
     """densities whose objects are sent through files (one round trip costs 15 - 25 ms, as much as ten other histories)"""
-    return ("mono3", "mixture") if tier == "quick" else tuple(D.DENSITIES)
+    return ("mono3", "mixture") if tier == "quick" else tuple(D.GRID)
 
 
 def run_history(make, ops, res=None, final=(("read",),)):
@@ -293,6 +353,12 @@ def run_history(make, ops, res=None, final=(("read",),)):
         factor = r[5] if len(r) > 5 else 1.0
         if res is not None:
             res.evaluations += 1
+        if kind == "raise":  # the expected failure of a read at parameter values outside the domain of the density
+            reads.append((obs, act, (), kind))
+            continue
+        if kind == "must-raise":
+            out.append((pos, obs, exp, act, "value-for-unevaluable-parameters", None))
+            break
         reads.append((obs, act, [factor * x for x in exp], kind))
         bad = compare(act, exp, tol, factor)
         if bad:
@@ -326,6 +392,9 @@ FIT_OUTSIDE = {
 
 
 FIT_ENTRY_POINTS = ("Fit", "mfobj")  # next to "py" = HistFit(data, function, ...)
+# the model function omitted (kafe2's default density: normal distribution, mu = sigma = 1) or given by its library name,
+# through HistFit and through the dispatcher kafe2.Fit; '-': the keywords bin_evaluation / density omitted as well
+FIT_ENTRY_DEFAULT = ("py0", "Fit0", "str", "Fitstr", "py0-", "Fit0-")
 
 
 class FitWorld13(object):
@@ -335,11 +404,23 @@ class FitWorld13(object):
         self.k2 = kafe2
         self.density, self.method, self.flag, self.v = density, method, flag, v
         s, t = VALUATIONS[v % 3]
-        self.points = D.points(density, s, t)
+        self.points = _points(density, s, t)
         d = D.DENSITIES[density]
         self.f = d.f
         data, self.edges, self.n = self._data(init)
-        if entry == "py":
+        kw = dict(bin_evaluation=bin_eval(density, method), density=flag)
+        if entry.endswith("-"):  # ... and the keywords omitted as well: Simpson's rule, density
+            assert method == "simpson" and flag is True
+            kw = {}
+        if entry in ("py0", "py0-"):  # the model function omitted: kafe2's default density
+            self.fit = kafe2.HistFit(data, **kw)
+        elif entry in ("Fit0", "Fit0-"):
+            self.fit = kafe2.Fit(data, **kw)
+        elif entry == "str":  # the default density under its library name
+            self.fit = kafe2.HistFit(data, "normal_distribution", **kw)
+        elif entry == "Fitstr":
+            self.fit = kafe2.Fit(data, "normal_distribution", **kw)
+        elif entry == "py":
             self.fit = kafe2.HistFit(data, d.f, bin_evaluation=bin_eval(density, method), density=flag)
         elif entry == "Fit":  # the generic dispatcher (containers only)
             self.fit = kafe2.Fit(data, d.f, bin_evaluation=bin_eval(density, method), density=flag)
@@ -396,6 +477,11 @@ class FitWorld13(object):
             from kafe2.fit._base import FitBase
 
             self.fit = _through_file(f, self.k2.HistFit if op[1] == "hist" else FitBase)
+        elif op[0] == "read" and op[1] in ("model", "density") and not D.evaluable(self.density, self.params):
+            if op[1] == "model":
+                return must_raise("model", lambda: [float(x) for x in f.model], self.params)
+            x = np.array([0.5 * (self.edges[0] + self.edges[-1])])
+            return must_raise("eval_model_function_density", lambda: [float(y) for y in f.eval_model_function_density(x)], self.params)
         elif op[0] == "read" and op[1] == "model":
             act = [float(x) for x in f.model]
             exp, tol, kind = expected_bins(self.density, self.method, self.params, self.edges)
@@ -465,10 +551,14 @@ def depth(tier, kind):
 def jobs(tier, seed):
     v = seed % 3
     specs = [("order", "simpson", "normal", v, tier)]  # small job first: re-run for the determinism check
-    for density in D.DENSITIES:
+    for density in D.GRID:
         for method in METHODS:
             specs.append(("fit", method, density, v, tier))
-    for density in D.DENSITIES:
+    for method in METHODS:
+        specs.append(("default", method, "normal0", v, tier))
+        for density in D.GUARDED:
+            specs.append(("fail", method, density, v, tier))
+    for density in D.GRID:
         for method in METHODS:
             specs.append(("model", method, density, v, tier))
             if method in ORDER and not is_exact_class(density, method) and (method, density) != ("simpson", "normal"):
@@ -489,7 +579,12 @@ def bound(tier, seed):
         "capitalised spelling of every method string; entry points: kafe2.Fit(container) and HistFit(data, HistModelFunction object) x all "
         "densities x methods x flags x initial data x ALL op sequences of length <= %d; file round trip (fit.to_file + HistFit.from_file%s, "
         "HistParametricModel.to_file + from_file) as an op: densities {%s} x 6 methods (not the numpy.vectorize wrapper) x flags x "
-        "(fit: 3 initial data sets; model: 5 binnings) x ALL op sequences of length <= 2 over the family's ops + the file op(s) in which a file op occurs; valuation %d"
+        "(fit: 3 initial data sets; model: 5 binnings) x ALL op sequences of length <= 2 over the family's ops + the file op(s) in which a file op occurs; "
+        "default density: {model function omitted, library name} x {HistFit, kafe2.Fit} x 7 methods x flags x 3 initial data sets x ALL op sequences of length <= %d "
+        "(+ all keywords omitted), HistParametricModel without density / parameters x 5 binnings x ALL op sequences of length <= %d; failed reads: 2 densities that "
+        "raise outside their domain (3 outside points) x 7 methods x flags x (5 binnings x ALL op sequences of length <= %d over the 6 model ops + the outside points "
+        "in which one occurs + fresh models at every outside point; 3 initial data sets x ALL op sequences of length <= %d over the 8 fit ops + 2 outside assignments "
+        "in which one occurs, closed by valid values + reads); valuation %d"
         % (
             depth(tier, "model"),
             "/".join(str(n) for n in LADDER),
@@ -498,6 +593,10 @@ def bound(tier, seed):
             depth(tier, "fit") - 1,
             " and FitBase.from_file" if tier == "thorough" else " / FitBase.from_file alternating over the initial data sets",
             ", ".join(file_densities(tier)),
+            depth(tier, "fit") - 1,
+            depth(tier, "fit"),
+            depth(tier, "model"),
+            depth(tier, "fit"),
             seed % 3,
         )
     )
@@ -644,8 +743,85 @@ def run_job(spec):
                     if out:
                         _report(res, seen, "fit", cfg, make, ops, FIT_FINAL, out[0])
         res.max_depth = L
+    elif kind == "default":
+        _run_default(res, seen, method, density, v, tier)
+    elif kind == "fail":
+        _run_fail(res, seen, method, density, v, tier)
     res.sample(dict(job=list(spec), executions=res.executions, evaluations=res.evaluations), cap=1)
     return res.as_dict()
+
+
+def _run_default(res, seen, method, density, v, tier):
+    """the model function omitted (kafe2's default density) / given by its library name x HistFit, kafe2.Fit x keywords given /
+    omitted; HistParametricModel without density and parameter values"""
+    L = depth(tier, "fit")
+    for flag in (True, False):
+        for entry in FIT_ENTRY_DEFAULT:
+            if entry.endswith("-") and not (method == "simpson" and flag):
+                continue
+            for init in FIT_INIT:
+                if entry.startswith("Fit") and init.rstrip("p") in FIT_HEIGHTS:
+                    continue  # numpy histogram tuple: the dispatcher does not take it for histogram data
+                cfg = (density, method, flag, v, init, entry)
+                make = _maker("fit", cfg)
+                for ops in _seqs(FIT_OPS, L - 1):
+                    out, reads = run_history(make, ops, res, final=FIT_FINAL)
+                    res.observe((cfg, ops, reads))
+                    _book(res, "fit", cfg, ops, reads, out)
+                    res.facts["entry:%s:%s" % (entry, flag)] += 1
+                    res.facts["entry:default:method:" + method] += 1
+                    if out:
+                        _report(res, seen, "fit", cfg, make, ops, FIT_FINAL, out[0])
+                    else:
+                        res.nontriv(("default", cfg, ops))
+        for binning in BINNINGS:
+            cfg = (binning, density, method, flag, v, 0, "default")
+            make = _maker("model", cfg)
+            for ops in _seqs(MODEL_OPS, L):
+                out, reads = run_history(make, ops, res)
+                res.observe((cfg, ops, reads))
+                _book(res, "model", cfg, ops, reads, out)
+                res.facts["entry:model-default"] += 1
+                if out:
+                    _report(res, seen, "model", cfg, make, ops, (("read",),), out[0])
+    res.max_depth = L
+
+
+def _run_fail(res, seen, method, density, v, tier):
+    """parameter values outside the domain of the density (the function raises) as part of the history alphabet"""
+    for flag in (True, False):
+        for binning in BINNINGS:
+            for p in [0] + ["b%d" % k for k in range(len(D.BAD_POINTS[density]))]:  # fresh models, also born outside the domain
+                cfg = (binning, density, method, flag, v, p)
+                make = _maker("model", cfg)
+                final = (("read",), ("read",), ("set", 1), ("read",))
+                out, reads = run_history(make, (), res, final=final)
+                res.observe((cfg, reads))
+                _book(res, "model", cfg, (), reads, out)
+                if out:
+                    _report(res, seen, "model", cfg, make, (), final, out[0])
+            cfg = (binning, density, method, flag, v, 0)
+            make = _maker("model", cfg)
+            for ops in fail_histories(density, tier):
+                out, reads = run_history(make, ops, res)
+                res.observe((cfg, ops, reads))
+                _book(res, "model", cfg, ops, reads, out)
+                if out:
+                    _report(res, seen, "model", cfg, make, ops, (("read",),), out[0])
+                else:
+                    res.nontriv(("fail", cfg, ops))
+        final = FIT_FINAL + (("setall", 1), ("read", "model"), ("read", "density"))  # ... and valid values at the end
+        for init, ops in fitfail_histories(density, tier):
+            cfg = (density, method, flag, v, init)
+            make = _maker("fit", cfg)
+            out, reads = run_history(make, ops, res, final=final)
+            res.observe((cfg, ops, reads))
+            _book(res, "fit", cfg, ops, reads, out)
+            if out:
+                _report(res, seen, "fit", cfg, make, ops, final, out[0])
+            else:
+                res.nontriv(("fitfail", cfg, ops))
+    res.max_depth = depth(tier, "model")
 
 
 def _maker(kind, cfg):
@@ -671,7 +847,18 @@ def _book(res, kind, cfg, ops, reads, out):
     f["%s:flag:%s" % (kind, flag)] += 1
     prev = None
     changed = False
+    fails = 0
     for obs, act, exp, okind in reads:
+        if okind == "raise":
+            f["oracle:raise:" + method] += 1
+            f["fail:%s:raise" % kind] += 1
+            if fails:
+                f["fail:%s:raise-raise" % kind] += 1
+            fails += 1
+            continue
+        if fails and obs in ("data", "model"):
+            f["fail:%s:raise-then-value" % kind] += 1
+        fails = 0
         if obs in ("data", "model"):
             res.state((kind, cfg[:4], tuple(exp)))
             f["oracle:%s:%s" % (okind, method)] += 1
@@ -793,6 +980,14 @@ def vacuity_guards(tot, tier):
             f.get(k, 0) > 0 for k in ("oracle:exact:" + m, "oracle:rule:" + m, "guard:inexact:" + m, "order:" + m)
         )
     yield "all densities", all(f.get("model:density:" + d, 0) > 0 for d in D.DENSITIES)
+    yield "model function omitted / given by its library name, through HistFit and kafe2.Fit, both density flags, every method; keywords omitted; model without density and parameters", all(
+        f.get("entry:%s:%s" % (e, fl), 0) > 0 for e in FIT_ENTRY_DEFAULT[:4] for fl in (True, False)
+    ) and all(f.get("entry:%s:True" % e, 0) > 0 for e in FIT_ENTRY_DEFAULT[4:]) and all(f.get("entry:default:method:" + m, 0) > 0 for m in METHODS) and f.get(
+        "entry:model-default", 0
+    ) > 0
+    yield "reads at parameter values outside the domain of the density: failed, failed again directly afterwards, and succeeded after valid values were set, on model and fit level, every method", all(
+        f.get("fail:%s:%s" % (k, w), 0) > 0 for k in ("model", "fit") for w in ("raise", "raise-raise", "raise-then-value")
+    ) and all(f.get("oracle:raise:" + m, 0) > 0 for m in METHODS)
     yield "fit data with underflow only, overflow only, both and manual heights, as initial and as replacement data", all(
         f.get("fitx:init:" + k, 0) > 0 for k in FIT_INIT_X
     ) and all(f.get("fitx:data:" + o[1], 0) > 0 for o in FIT_OPS_X)
